@@ -25,9 +25,19 @@ ASSUMPTIONS = [
 
 
 # ----------------------------------------------------------------------------- deep equality
-def deep_equal(a, b):
+def deep_equal(a, b, rtol=1e-12, arel=0.0):
+    """rtol: relative tolerance for floats; arel: absolute tolerance as a fraction of the largest magnitude in the array"""
     import networkx as nx
     import pandas as pd
+
+    def de(x, y):
+        return deep_equal(x, y, rtol, arel)
+
+    def close(x, y):
+        x, y = np.asarray(x, float), np.asarray(y, float)
+        fin = np.abs(x[np.isfinite(x)])
+        scale = float(fin.max()) if fin.size else 0.0
+        return bool(np.allclose(x, y, rtol=rtol, atol=arel * scale, equal_nan=True))
 
     if isinstance(a, Raised) or isinstance(b, Raised):
         return isinstance(a, Raised) and isinstance(b, Raised) and type(a.exc) is type(b.exc)
@@ -38,21 +48,23 @@ def deep_equal(a, b):
             return a.shape == b.shape and a.dtype == b.dtype and a.tobytes() == b.tobytes()
         if a.dtype.kind in 'fc':
             # a recomputation may differ in the last bits (numpy's SIMD reductions depend on memory alignment)
-            return a.shape == b.shape and bool(np.allclose(a, b, rtol=1e-12, atol=0, equal_nan=True))
+            return a.shape == b.shape and close(a, b)
         return a.shape == b.shape and bool(np.array_equal(a, b))
     if isinstance(a, pd.DataFrame):
-        return a.shape == b.shape and list(a.columns) == list(b.columns) and list(a.index) == list(b.index) and bool(np.allclose(a.to_numpy(dtype=float), b.to_numpy(dtype=float), rtol=1e-12, atol=0, equal_nan=True))
+        return a.shape == b.shape and list(a.columns) == list(b.columns) and list(a.index) == list(b.index) and close(a.to_numpy(dtype=float), b.to_numpy(dtype=float))
     if isinstance(a, (nx.Graph, nx.DiGraph)):
-        return dict(a.nodes(data=True)) == dict(b.nodes(data=True)) and sorted(a.edges) == sorted(b.edges) and all(deep_equal(a.edges[e].get('e_act'), b.edges[e].get('e_act')) for e in a.edges)
+        return dict(a.nodes(data=True)) == dict(b.nodes(data=True)) and sorted(a.edges) == sorted(b.edges) and all(de(a.edges[e].get('e_act'), b.edges[e].get('e_act')) for e in a.edges)
     if isinstance(a, (tuple, list)):
-        return len(a) == len(b) and all(deep_equal(x, y) for x, y in zip(a, b))
+        return len(a) == len(b) and all(de(x, y) for x, y in zip(a, b))
     if isinstance(a, dict):
-        return set(a) == set(b) and all(deep_equal(a[k], b[k]) for k in a)
+        return set(a) == set(b) and all(de(a[k], b[k]) for k in a)
     if isinstance(a, (float, np.floating)):
-        return bool((a == b) or (a != a and b != b) or abs(a - b) <= 1e-12 * max(abs(a), abs(b)))
+        return bool((a == b) or (a != a and b != b) or abs(a - b) <= rtol * max(abs(a), abs(b)))
     if type(a).__name__ == 'Collective':
         return (a.n_solo_jumps == b.n_solo_jumps and a.n_coll_jumps == b.n_coll_jumps and a.max_steps == b.max_steps and a.max_dist == b.max_dist
                 and [tuple(map(tuple, x)) for x in a.coll_jumps] == [tuple(map(tuple, x)) for x in b.coll_jumps])
+    if type(a).__name__ == 'Structure':
+        return len(a) == len(b) and list(a.labels) == list(b.labels) and close([float(x.species.num_atoms) for x in a], [float(x.species.num_atoms) for x in b]) and close(a.frac_coords, b.frac_coords)
     return a == b
 
 
@@ -231,6 +243,21 @@ METHODS = {
     'Trajectory': [('metrics', [()]), ('mean_squared_displacement', [()]), ('distances_from_base_position', [()]), ('center_of_mass', [()]), ('drift', [()]), ('to_volume', [(1.5,)])],
     'Collective': [('site_pair_count_matrix', [()]), ('site_pair_count_matrix_labels', [()]), ('multiple_collective', [()])],
 }
+# analysis entry points that are not memoised on the pinned tree: they are exercised too (whatever they memoise must not pin or leak)
+# and compared with a pristine twin only
+METHODS['Transitions'] += [('occupancy', [()]), ('atom_locations', [()]), ('occupancy_by_site_type', [()])]
+METHODS['Jumps'] += [('activation_energy_between_sites', [('A', 'B'), ('B', 'A')])]
+# objects derived from ONE shared parent trajectory (whole run / a slice of it; they share whatever the parent hands to derived trajectories)
+METHODS['JumpsFamily'] = [('collective', [(), (2.5,)]), ('to_graph', [(), {'max_e_act': 0.25}]), ('activation_energies', [(1,), (2,)]), ('jump_diffusivity', [(3,)]), ('rates', [(1,)]), ('matrix', [()])]
+METHODS['MetricsFamily'] = METHODS['TrajectoryMetrics']
+# (Collective objects are cached *values* of Jumps.collective(): an entry of a dead owner may linger until it is evicted, by design)
+ANALYSIS_CLASSES = ('Trajectory', 'Transitions', 'Jumps', 'TrajectoryMetrics')
+
+
+def census():
+    """number of live gemdat analysis objects in this process (after a collection)"""
+    gc.collect()
+    return sum(1 for o in gc.get_objects() if type(o).__name__ in ANALYSIS_CLASSES and type(o).__module__.startswith('gemdat'))
 
 
 def history_transitions(h):
@@ -271,13 +298,36 @@ class RealMachine(LogMachine):
         self.next = 0
         self.dead_ids = set()
         self.cached = set()
-        self.flags = {'id_reuse': 0, 'eviction': False, 'kinds': set()}
+        self.parents = {}
+        self.census0 = census()
+        self.flags = {'id_reuse': 0, 'eviction': False, 'kinds': set(), 'family': 0}
 
-    def build(self, k, kind):
+    def build(self, k, kind, pristine=False):
         from gemdat.jumps import Jumps
         from gemdat.metrics import TrajectoryMetrics
 
         case = self.systems[k % len(self.systems)]
+        if kind in ('JumpsFamily', 'MetricsFamily'):
+            # derived from one shared parent trajectory object per system: the whole run or one of two slices of it
+            ks = k % len(self.systems)
+            if pristine:
+                parent = sitesys.full_trajectory(case)
+            else:
+                if ks not in self.parents:
+                    self.parents[ks] = sitesys.full_trajectory(case)
+                parent = self.parents[ks]
+            variant = (k // len(self.systems)) % 3
+            T = len(parent)
+            sub = parent if variant == 0 or T < 4 else (gcall(lambda: parent[1:]) if variant == 1 else gcall(lambda: parent[: T - 1]))
+            if kind == 'MetricsFamily':
+                return TrajectoryMetrics(gcall(sub.filter, 'Li'))
+            tr = gcall(sub.transitions_between_sites, sitesys.sites(case), 'Li', site_radius=sitesys.radius_arg(case), site_inner_fraction=case['inner_fraction'], allow=(ValueError,))
+            if isinstance(tr, Raised):
+                raise Skip()
+            j = gcall(Jumps, tr, allow=(ValueError,))
+            if isinstance(j, Raised):
+                raise Skip()
+            return j
         traj = sitesys.full_trajectory(case)
         if kind == 'Trajectory':
             return traj
@@ -290,7 +340,7 @@ class RealMachine(LogMachine):
             # several Jumps objects with different settings over ONE shared Transitions object whose history is residence-sensitive
             if 'h' not in self.shared:
                 self.shared['h'] = history_transitions(self.histories[0])
-            j = gcall(Jumps, self.shared['h'], minimal_residence=[0, self.histories[0]['residences'][1], 1][k % 3], allow=(ValueError,))
+            j = gcall(Jumps, history_transitions(self.histories[0]) if pristine else self.shared['h'], minimal_residence=[0, self.histories[0]['residences'][1], 1][k % 3], allow=(ValueError,))
             if isinstance(j, Raised):
                 raise Skip()
             return j
@@ -309,7 +359,9 @@ class RealMachine(LogMachine):
         self.next += 1
         if id(o) in self.dead_ids:
             self.flags['id_reuse'] += 1
-        self.live[h] = (kind, k % len(self.systems), o)
+        self.live[h] = (kind, k, o)
+        if kind.endswith('Family'):
+            self.flags['family'] += 1
         self.flags['kinds'].add(kind)
         return h
 
@@ -333,7 +385,20 @@ class RealMachine(LogMachine):
             wrapped = getattr(getattr(type(o), name), '__wrapped__', None)
             if wrapped is None or name == 'metrics':
                 return name
-        unc = gcall(getattr(type(o), name).__wrapped__, o, *a, **kw, allow=(ValueError, ZeroDivisionError, IndexError, KeyError))
+        ALLOW = (ValueError, ZeroDivisionError, IndexError, KeyError)
+        # a pristine twin: the same object derived again from the raw arrays, sharing nothing with any object of this history, asked once
+        if kind != 'Trajectory' and (m + ai) % 2 == 0:
+            twin = self.build(k, kind, pristine=True)
+            tm = getattr(type(twin), name)
+            tv = gcall(getattr(tm, '__wrapped__', tm), twin, *a, **kw, allow=ALLOW)
+            if not deep_equal(got, tv, rtol=1e-7, arel=1e-9):
+                raise Violation('value-belongs-to-this-object', f'{kind}.{name}{args} differs from the value a pristine twin gives (the same object derived again from the raw data, sharing nothing with the objects of this history; system {k}, {len(self.live)} live objects)')
+            del twin, tv
+        if getattr(getattr(type(o), name), '__wrapped__', None) is None:
+            if not deep_equal(got, got2):
+                raise Violation('repeated-call-same-value', f'{kind}.{name}{args}: two consecutive calls differ')
+            return name
+        unc = gcall(getattr(type(o), name).__wrapped__, o, *a, **kw, allow=ALLOW)
         if name == 'rates' and not isinstance(got, Raised):
             own = own_rates(o, *a)
             if own is not None and not deep_equal(got, own):
@@ -369,7 +434,8 @@ class RealMachine(LogMachine):
         elif k == 'pair':
             # two live objects that differ only in their settings / system, queried with the same method and arguments
             h1 = self._new(op['k'], op['kind'])
-            h2 = self._new(op['k'] + 1, op['kind'])
+            # (family kinds: the same system, another slice of the same shared parent trajectory)
+            h2 = self._new(op['k'] + (len(self.systems) if op['kind'].endswith('Family') else 1), op['kind'])
             for h in (h1, h2, h1):
                 self._call(h, op['m'], op['a'])
         elif k == 'burst':
@@ -399,9 +465,17 @@ class RealMachine(LogMachine):
     def finish(self):
         for h in sorted(self.live):
             self._drop(h)
+        self.shared.clear()
+        self.parents.clear()
+        n = census()
+        if n > self.census0:
+            kinds = collections.Counter(type(o).__name__ for o in gc.get_objects() if type(o).__name__ in ANALYSIS_CLASSES and type(o).__module__.startswith('gemdat'))
+            raise Violation('caching-does-not-keep-object-alive', f'{n - self.census0} analysis objects created during this history (including temporaries made inside the library) are still alive after every reference was dropped and gc.collect(); live now: {dict(kinds)}')
 
     def info(self):
         labels = sorted(self.flags['kinds'])
+        if self.flags['family'] >= 2:
+            labels.append('siblings-from-one-parent')
         if self.flags['id_reuse']:
             labels.append('address-reused-by-new-object')
         if self.flags['eviction']:
@@ -417,7 +491,7 @@ class RealMachine(LogMachine):
                 ok.append(c)
         self.step({'op': 'init', 'systems': ok, 'histories': [history]})
 
-    @rule(k=st.integers(0, 8), kind=st.sampled_from(['Transitions', 'Jumps', 'Jumps', 'JumpsShared', 'JumpsShared', 'TrajectoryMetrics', 'Collective', 'Trajectory']))
+    @rule(k=st.integers(0, 8), kind=st.sampled_from(['Transitions', 'Jumps', 'Jumps', 'JumpsShared', 'JumpsShared', 'TrajectoryMetrics', 'Collective', 'Trajectory', 'JumpsFamily', 'JumpsFamily', 'MetricsFamily']))
     def r_new(self, k, kind):
         self.step({'op': 'new', 'k': k, 'kind': kind})
 
@@ -433,7 +507,7 @@ class RealMachine(LogMachine):
     def r_drop_create(self, i, k, m, a):
         self.step({'op': 'drop-create', 'i': i, 'k': k, 'm': m, 'a': a})
 
-    @rule(k=st.integers(0, 8), kind=st.sampled_from(['JumpsShared', 'JumpsShared', 'Jumps', 'Transitions']), m=st.sampled_from([0, 1, 2, 3, 5, 5]), a=st.integers(0, 3))
+    @rule(k=st.integers(0, 8), kind=st.sampled_from(['JumpsShared', 'JumpsShared', 'Jumps', 'Transitions', 'JumpsFamily', 'JumpsFamily', 'MetricsFamily']), m=st.sampled_from([0, 1, 2, 3, 5, 5]), a=st.integers(0, 3))
     def r_pair(self, k, kind, m, a):
         self.step({'op': 'pair', 'k': k, 'kind': kind, 'm': m, 'a': a})
 
